@@ -386,6 +386,22 @@ class CallMixin:
         text = env[names[0]]
         attr = env[names[1]]
         mode = "attr" if self.run.truth(attr, node) else "text"
+        # further parameters select other behaviour of the function: a call that does not leave them at their defaults is not
+        # "the text / attribute mapping" (the escape-function checks decide the function at its defaults)
+        a_ = f.node.args
+        extra = [(p_, d_) for p_, d_ in zip(a_.args[::-1], a_.defaults[::-1]) if p_.arg not in names[:2]] + \
+                [(p_, d_) for p_, d_ in zip(a_.kwonlyargs, a_.kw_defaults) if d_ is not None]
+        for p_, d_ in extra:
+            try:
+                dv = self.prog.fold(d_, f.mod)
+            except Exception:
+                dv = _NOFOLD
+            v_ = env.get(p_.arg, dv)
+            if isinstance(v_, SBool) and v_.atom[0] != "param":
+                v_ = self.run.truth(v_, node)
+            same = (v_ is dv) or (not isinstance(v_, Sym) and not isinstance(dv, Sym) and type(v_) is type(dv) and v_ == dv)
+            if not same:
+                mode = f"{mode}+{p_.arg}={short(v_)}"
         if isinstance(text, SObj) and not (text.kinds <= frozenset({"STR", "JSXEXPR"})):
             if len(text.kinds) > 1:
                 self.split_kinds(text, node, [frozenset({"STR", "JSXEXPR"}), frozenset({"HTMLSTR"}),
@@ -1511,6 +1527,9 @@ def collecting_twin(fn: ast.FunctionDef) -> ast.FunctionDef:
     tw.__dict__["_sa_is_gen"] = False
     fn.__dict__["_sa_twin"] = tw
     return tw
+
+
+_NOFOLD = object()
 
 
 def owner_of(x: Any) -> str:
